@@ -453,6 +453,41 @@ def _replay_ids_chain(ctx, F, fn):
     return True
 
 
+def _option_filter_tests(F, fn, pi):
+    """calls `filter.is_some_and(cl)` / `filter.is_none_or(cl)` on the Option<&HashSet> parameter pi whose closure tests
+    `set.contains(..)` on its own parameter. Returns [(call, admitted_when_true)]: is_none_or(|s| s.contains(x)) is true exactly when
+    the frame is admitted (no filter, or member); is_some_and(|s| !s.contains(x)) is true exactly when it is excluded."""
+    out = []
+    for c in fn.calls():
+        if c.name not in ('is_some_and', 'is_none_or') or len(c.args) < 2:
+            continue
+        if pi not in lib.slice_back(fn, c.args[:1], through_calls=True, at=(c.bb, None)).args:
+            continue
+        cls = [F.fns[q] for q in lib.slice_back(fn, c.args[1:2], through_calls=False, at=(c.bb, None)).closures if q in F.fns]
+        if len(cls) != 1:
+            continue
+        cl = cls[0]
+        outs = [(bb, i, st) for bb, i, st in cl.stmts() if st['lhs']['l'] == 0 and not st['lhs'].get('p')]
+        rets = [x for x in cl.calls() if x.dest is not None and x.dest.l == 0 and not x.dest.p]
+        sl = None
+        if len(outs) == 1 and not rets:
+            sl = lib.slice_back(cl, lib.rv_operands(outs[0][2]['rv']), through_calls=True, at=(outs[0][0], outs[0][1]))
+            neg = ('Not' in sl.ops) != (outs[0][2]['rv'].get('k') == 'un' and outs[0][2]['rv'].get('op') == 'Not' and 'Not' not in sl.ops)
+            neg = 'Not' in sl.ops or (outs[0][2]['rv'].get('k') == 'un' and outs[0][2]['rv'].get('op') == 'Not')
+            cons = [x for x in sl.calls if x.name == 'contains']
+        elif len(rets) == 1 and not outs and rets[0].name == 'contains':
+            neg, cons = False, rets
+        else:
+            continue
+        if len(cons) != 1 or 2 not in lib.slice_back(cl, cons[0].args[:1], through_calls=True, at=(cons[0].bb, None)).args:
+            continue
+        if c.name == 'is_none_or' and not neg:
+            out.append((c, True))
+        elif c.name == 'is_some_and' and neg:
+            out.append((c, False))
+    return out
+
+
 def _engines(ctx, F):
     for key in ENGINES:
         fn = ctx.need('MPT-C11b', key)
@@ -477,6 +512,8 @@ def _engines(ctx, F):
                         if pi in lib.slice_back(b, [a], through_calls=True).args and b is fn:
                             used.append('search_documents@%s' % c.line)
                             break
+        opt_tests = _option_filter_tests(F, fn, pi)
+        used += ['%s@%s' % (c.name, c.line) for c, adm in opt_tests]
         # forwarded to another engine counts for that call only; there must be a real use too
         ctx.evaluations += len(bodies)
         if used:
@@ -494,6 +531,11 @@ def _engines(ctx, F):
                 if any(c.name == 'contains' for c in sl.calls) and pi in sl.args:
                     neg = 'Not' in sl.ops
                     cut.add((bs['bb'], bs['t_false'] if neg else bs['t_true']))
+                # `filter.is_some_and(|f| !f.contains(id))` (excluded) / `filter.is_none_or(|f| f.contains(id))` (admitted)
+                for oc, admitted_when_true in opt_tests:
+                    if oc in sl.calls:
+                        adm_true = admitted_when_true != ('Not' in sl.ops)
+                        cut.add((bs['bb'], bs['t_true'] if adm_true else bs['t_false']))
             pushes = [c for c in fn.calls() if c.is_('Vec::push') and lib.slice_back(fn, c.args[1:2], through_calls=False).calls_matching('compute_snippet_slices')]
             for p in pushes:
                 ctx.evaluations += 1
